@@ -410,7 +410,8 @@ fn judge_vslerp_r<R: Real>(cx: &Cx, w: &[u64], got: &[f64; 4], t: &mut Tally) ->
             // nearly opposite: rotation by s*pi about some axis orthogonal to a, length interpolated
             let g: Vec<R> = rv(got);
             let ng = norm_ref(&g).f();
-            let tol_l = K * u * lscale * (1.0 + PI * s.abs()) + lerr;
+            // rotation by a quaternion built from a normalised axis and sin/cos: 14u first order (see rotate_towards), doubled
+            let tol_l = 28.0 * u * lscale * (1.0 + PI * s.abs()) + lerr;
             let e1 = (ng - lenf.abs()).abs();
             if !(e1 <= tol_l) {
                 return Err(format!("opposite fallback: length {:e} expected {:e} |err| {:e} > tol {:e}", ng, lenf.abs(), e1, tol_l));
